@@ -220,6 +220,19 @@ ROUND11 = {
  "C19": "Round 11: the Go spelling of a renamed local stays outside the identifier grammar and generated type names keep letter case (two known findings); impl names whole (shared with C17).",
 }
 
+# clauses added after round 12 (ten cooperating-site seeds; seeded/ROUNDS.md); appended after ROUND11
+ROUND12 = {
+ "C03": "Round 12: every recursive yes/no question about a type combines the answers for the children with one connective (13 predicates).",
+ "C04": "Round 12: the occurs check answers for every component of a type (one connective per recursive predicate, shared with C03).",
+ "C07": "Round 12: the type printer behind ty_compact - the text every instance is named by - renders every component of every former and shortens no list; genericity predicates use one connective.",
+ "C08": "Round 12: the renamer that respells locals for Go visits every operand (shared with C01).",
+ "C10": "Round 12: the width-generic literal parsers are read with the helpers they call and with their signature (a bound TryFrom<i64> is a fixed-width intermediate).",
+ "C11": "Round 12: literals are parsed at their own width also through helpers (shared with C10).",
+ "C14": "Round 12: the dependency walk that orders the cores reads an edge list every producer of a package unit fills.",
+ "C15": "Round 12: no hash-ordered iteration reaches an ordered sink in the front end - the interface hash is a function of the sources (shared with C13).",
+ "C19": "Round 12: the rendering behind every instance and impl name is complete (shared with C07).",
+}
+
 CLAIMED = {
  "C01": dict(
    text="Semantic preservation is NOT decided. Decided on every arm of every pass: pass totality (no catch-all over the input IR, anchor "
@@ -414,6 +427,8 @@ def main():
                 c["text"] = c["text"] + " " + ROUND10[pid]
             if pid in ROUND11:
                 c["text"] = c["text"] + " " + ROUND11[pid]
+            if pid in ROUND12:
+                c["text"] = c["text"] + " " + ROUND12[pid]
             m["checks"].append({
                 "property_id": pid,
                 "quick_cmd": f"./check {pid} --tier quick",
